@@ -3,11 +3,6 @@
 use super::*;
 use crate::__verif_common::*;
 
-/// secp256k1 group order, big-endian.
-const ORDER: [u8; 32] = [
-    0xff, 0xff, 0xff, 0xff, 0xff, 0xff, 0xff, 0xff, 0xff, 0xff, 0xff, 0xff, 0xff, 0xff, 0xff, 0xfe,
-    0xba, 0xae, 0xdc, 0xe6, 0xaf, 0x48, 0xa0, 0x3b, 0xbf, 0xd2, 0x5e, 0x8c, 0xd0, 0x36, 0x41, 0x41,
-];
 /// Affine coordinates of the generator G, big-endian.
 const GX: [u8; 32] = [
     0x79, 0xbe, 0x66, 0x7e, 0xf9, 0xdc, 0xbb, 0xac, 0x55, 0xa0, 0x62, 0x95, 0xce, 0x87, 0x0b, 0x07,
@@ -19,27 +14,7 @@ const GY: [u8; 32] = [
 ];
 
 fn in_range(x: &[u8; 32]) -> bool {
-    let mut nonzero = false;
-    let mut i = 0;
-    while i < 32 {
-        if x[i] != 0 {
-            nonzero = true;
-        }
-        i += 1;
-    }
-    let mut below = false;
-    let mut i = 0;
-    while i < 32 {
-        if x[i] < ORDER[i] {
-            below = true;
-            break;
-        }
-        if x[i] > ORDER[i] {
-            break;
-        }
-        i += 1;
-    }
-    nonzero && below
+    scalar_in_range32(x)
 }
 
 // PrivateKey::new over byte strings of length L (content symbolic): 32 bytes are accepted iff
@@ -50,11 +25,7 @@ fn check_new<const L: usize>() {
     let got = PrivateKey::new(&bytes[..]);
     let mut padded = [0u8; 32];
     if L <= 32 {
-        let mut i = 0;
-        while i < L {
-            padded[32 - L + i] = bytes[i];
-            i += 1;
-        }
+        padded[32 - L..].copy_from_slice(&bytes[..]); // concrete sizes
     }
     let valid_int = L <= 32 && in_range(&padded);
     kani::cover!(L != 32 || (got.is_ok() && bytes[0] == 0xff), "large scalar accepted");
@@ -64,11 +35,7 @@ fn check_new<const L: usize>() {
         Ok(key) => {
             assert!(valid_int, "a byte string that is not an integer in [1, n-1] was accepted");
             let s = key.secret();
-            let mut i = 0;
-            while i < 32 {
-                assert!(s[i] == padded[i], "secret() differs from the big-endian integer given");
-                i += 1;
-            }
+            assert!(eq32(&s, &padded), "secret() differs from the big-endian integer given");
         }
         Err(_) => {
             if L == 32 {
@@ -84,8 +51,8 @@ macro_rules! new_harness {
     )*};
 }
 new_harness! {
-    c04_new_00 = 0, 36; c04_new_01 = 1, 36; c04_new_16 = 16, 36; c04_new_23 = 23, 36; c04_new_24 = 24, 36;
-    c04_new_31 = 31, 36; c04_new_32 = 32, 36; c04_new_33 = 33, 36; c04_new_40 = 40, 44; c04_new_64 = 64, 68;
+    c04_new_00 = 0, 34; c04_new_01 = 1, 34; c04_new_16 = 16, 34; c04_new_23 = 23, 34; c04_new_24 = 24, 34;
+    c04_new_31 = 31, 34; c04_new_32 = 32, 34; c04_new_33 = 33, 34; c04_new_40 = 40, 34; c04_new_64 = 64, 34;
 }
 
 // ------------------------------------------------------------------------------------------------
@@ -98,11 +65,7 @@ fn mul_stub(_x: &k256::ProjectivePoint, k: &k256::Scalar) -> k256::ProjectivePoi
     unsafe {
         MUL_CALLS += 1;
         let b = k.to_bytes();
-        let mut i = 0;
-        while i < 32 {
-            MUL_SCALAR[i] = b[i];
-            i += 1;
-        }
+        MUL_SCALAR.copy_from_slice(&b[..]);
     }
     k256::ProjectivePoint::GENERATOR
 }
@@ -113,8 +76,8 @@ fn to_affine_stub(_p: &k256::ProjectivePoint) -> k256::AffinePoint {
 crate::verif_harness! {
     #[kani::stub(k256::arithmetic::mul::mul, mul_stub)]
     #[kani::stub(k256::ProjectivePoint::to_affine, to_affine_stub)]
-    #[kani::stub(ethdigest::Digest::of, crate::__verif_common::digest_of_stub)]
-    #[kani::unwind(70)]
+    #[kani::stub(ethdigest::Digest::of, crate::__verif_common::digest_of_stub80)]
+    #[kani::unwind(67)]
     fn c04_address() {
         let secret: [u8; 32] = kani::any();
         kani::assume(in_range(&secret));
@@ -125,36 +88,20 @@ crate::verif_harness! {
         if stubs_active() {
             unsafe {
                 assert!(MUL_CALLS >= 1, "public key must come from a scalar multiplication");
-                let mut i = 0;
-                while i < 32 {
-                    assert!(MUL_SCALAR[i] == secret[i], "the scalar multiplied is not the secret");
-                    i += 1;
-                }
+                assert!(eq32(&MUL_SCALAR, &secret), "the scalar multiplied is not the secret");
             }
             // 65-byte uncompressed SEC1: 0x04 || X || Y
             assert!(public[0] == 0x04);
-            let mut i = 0;
-            while i < 32 {
-                assert!(public[1 + i] == GX[i] && public[33 + i] == GY[i], "uncompressed encoding");
-                i += 1;
-            }
+            assert!(bytes_eq(&public[1..33], &GX) && bytes_eq(&public[33..65], &GY), "uncompressed encoding");
             // address = last 20 bytes of Keccak-256 over the 64 coordinate bytes (tag dropped)
             let mut pre = [0u8; 64];
-            let mut i = 0;
-            while i < 32 {
-                pre[i] = GX[i];
-                pre[32 + i] = GY[i];
-                i += 1;
-            }
+            pre[..32].copy_from_slice(&GX);
+            pre[32..].copy_from_slice(&GY);
             let n = digest_calls();
             assert!(n >= 1);
             let out = unsafe { DLOG_OUT[n - 1] };
-            digest_expect(n - 1, &pre, &out);
-            let mut i = 0;
-            while i < 20 {
-                assert!(address[i] == out[12 + i], "address is not the last 20 bytes of the digest");
-                i += 1;
-            }
+            digest_expect80(n - 1, &pre, &out);
+            assert!(bytes_eq(&address.0, &out[12..]), "address is not the last 20 bytes of the digest");
         } else {
             use k256::elliptic_curve::sec1::ToEncodedPoint as _;
             let sk = SecretKey::from_slice(&secret).unwrap();
